@@ -1175,7 +1175,7 @@ class _Host:
 
     def primitive_of(self, sdv):
         from exactly_lib.util.symbol_table import empty_symbol_table
-        return sdv.resolve(empty_symbol_table()).value_of_any_dependency(None).primitive(None)
+        return sdv.resolve(empty_symbol_table()).value_of_any_dependency(None).primitive(_fixture()['env'])
 
     def run(self, sdv):
         """-> (value, [dumps of the primitives' nodes, in order])"""
@@ -1236,27 +1236,83 @@ def _flat_skeleton(s):
     return (s[1], out)
 
 
+_FIXTURE = {}
+
+
+def _fixture():
+    """A directory (f1: regular file; s1: directory with one file x; s2: empty directory) as model of the
+    file / files matchers, and a minimal application environment (space for temporary files only); made once
+    per process, removed at exit."""
+    if not _FIXTURE:
+        import atexit
+        import pathlib
+        import shutil
+        import tempfile
+        from exactly_lib.test_case.app_env import ApplicationEnvironment
+        from exactly_lib.util.file_utils.dir_file_spaces import DirFileSpaceThatDoNotCreateFiles
+        root = pathlib.Path(tempfile.mkdtemp(prefix='c06-'))
+        atexit.register(shutil.rmtree, str(root), True)
+        d = root / 'c06-dir'
+        (d / 's1').mkdir(parents=True)
+        (d / 's2').mkdir()
+        (d / 'f1').write_text('x')
+        (d / 's1' / 'x').write_text('')
+        _FIXTURE['dir'] = d
+        _FIXTURE['env'] = ApplicationEnvironment(None, None, DirFileSpaceThatDoNotCreateFiles(root / 'tmp'), 2 ** 10)
+    return _FIXTURE
+
+
+def _drop_fixture():
+    """(worker processes of the check do not run atexit handlers)"""
+    import shutil
+    if _FIXTURE:
+        shutil.rmtree(str(_FIXTURE['dir'].parent), True)
+        _FIXTURE.clear()
+
+
 def _hosts():
+    """Primitives that are true / false on the model.  Those with a component that is itself an expression
+    (which the documented grammar restricts to a SIMPLE expression) come first: every shape of the stand-in
+    puts them in front of && / || / | of the host type, in every layout."""
     from exactly_lib.impls.types.string_source import constant_str
+    from exactly_lib.impls.types.file_matcher.file_matcher_models import FileMatcherModelForDescribedPath
+    from exactly_lib.impls.types.files_matcher import models as files_matcher_models
+    from exactly_lib.type_val_deps.types.path import path_ddvs
     matchers, transformers = _grammar_modules()
     ints_t = ['== 5', '>= 5', '<= 5', '!= 4', '> 4', '< 6', '>= 4', '<= 6', '!= 6', 'constant true']
     ints_f = ['!= 5', '> 5', '< 5', '== 4', '>= 6', '<= 4', '== 6', '> 6', '< 4', 'constant false']
     text = lambda: constant_str.string_source('abcABC\nab\n', None)
+    the_dir = lambda: path_ddvs.absolute_path(_fixture()['dir']).value_when_no_dir_dependencies__d()
     return [
         _Host('integer-matcher', matchers['integer-matcher'], lambda: 5, ints_t, ints_f),
         _Host('line-matcher', matchers['line-matcher'], lambda: (5, 'abc'),
-              ['line-num ' + x for x in ints_t[:-1]] + ['constant true', 'line-num ( == 4 || == 5 )'],
-              ['line-num ' + x for x in ints_f[:-1]] + ['constant false', 'line-num ! == 5']),
+              ['line-num == 5', 'contents num-lines == 1', 'line-num ( == 4 || == 5 )', 'contents ! is-empty']
+              + ['line-num ' + x for x in ints_t[1:-1]] + ['constant true'],
+              ['line-num != 5', 'contents is-empty', 'line-num ! == 5', 'contents num-lines == 2']
+              + ['line-num ' + x for x in ints_f[1:-1]] + ['constant false']),
         _Host('string-matcher', matchers['string-matcher'], text,
-              ['num-lines ' + x.replace('5', '2').replace('4', '1').replace('6', '3') for x in ints_t[:-1]]
+              ['num-lines == 2', 'every line : line-num >= 1', '-transformed-by char-case -to-upper num-lines == 2',
+               'any line : line-num == 2']
+              + ['num-lines ' + x.replace('5', '2').replace('4', '1').replace('6', '3') for x in ints_t[1:-1]]
               + ['constant true'],
-              ['num-lines ' + x.replace('5', '2').replace('4', '1').replace('6', '3') for x in ints_f[:-1]]
-              + ['is-empty', 'constant false']),
-        _Host('file-matcher', matchers['file-matcher'], lambda: None, ['constant true'], ['constant false']),
-        _Host('files-matcher', matchers['files-matcher'], lambda: None, ['constant true'], ['constant false']),
+              ['is-empty', 'any line : constant false', '-transformed-by identity is-empty',
+               'every line : line-num == 1']
+              + ['num-lines ' + x.replace('5', '2').replace('4', '1').replace('6', '3') for x in ints_f[:-1]]
+              + ['constant false']),
+        _Host('file-matcher', matchers['file-matcher'], lambda: FileMatcherModelForDescribedPath(the_dir()),
+              ['type dir', 'dir-contents num-files == 3', 'dir-contents -recursive num-files == 4',
+               'dir-contents -selection type file num-files == 1', 'name c06-*', 'constant true'],
+              ['type file', 'dir-contents is-empty', 'dir-contents num-files == 1',
+               'dir-contents every file : type dir', 'type symlink', 'constant false']),
+        _Host('files-matcher', matchers['files-matcher'], lambda: files_matcher_models.non_recursive(the_dir()),
+              ['num-files == 3', '-selection type file num-files == 1', 'any file : type file',
+               '-with-pruned name s1 num-files == 3', 'every file : ! type symlink', 'constant true'],
+              ['is-empty', '-selection type dir num-files == 1', 'every file : type dir',
+               '-with-pruned type dir num-files == 1', 'any file : type symlink', 'constant false']),
         _Host('string-transformer', transformers['string-transformer'], text,
-              ['replace a b', 'replace b c', 'char-case -to-upper', 'replace B d', 'replace c a', 'identity',
-               'char-case -to-lower', 'replace d B', 'strip'], [], is_transformer=True),
+              ['replace a b', 'filter line-num >= 1', 'char-case -to-upper', 'replace -at line-num == 1 B d',
+               'replace b c', 'replace c a', 'identity', 'char-case -to-lower', 'replace d B', 'strip'], [],
+              is_transformer=True),
     ]
 
 
@@ -1419,21 +1475,294 @@ def _run_standin(ctx, host, plans):
 
 def _plans(host_name, tier):
     if tier != 'thorough':
-        return [_Plan(2, 2, 1)]
-    plans = [_Plan(2, 2, 2, pairs=True, vectors='four'), _Plan(2, 3, 0, pairs=True)]
+        # (file / files matchers evaluate on a real directory: the doubled spaces, which do not depend on the
+        # host type, are left to the other four host types in the quick tier)
+        return [_Plan(2, 2, 1, doubled_spaces=host_name not in ('file-matcher', 'files-matcher'))]
+    plans = [_Plan(2, 2, 2, pairs=True, vectors='four')]
+    # (the descent is the same generic code for every host type; what differs between them -- the primitives with
+    # simple components -- is covered by the bound above: the wider and deeper bounds only for some of them)
+    if host_name in ('integer-matcher', 'line-matcher', 'string-transformer'):
+        plans.append(_Plan(2, 3, 0, pairs=True))
     if host_name == 'integer-matcher':
-        # (the descent is the same generic code for every host type: the deepest bound only for one of them)
         plans.append(_Plan(3, 2, 0, doubled_spaces=False, damaged=False))
     return plans
 
 
 def _standin_for(host_name):
     def run(ctx):
-        host = [h for h in _hosts() if h.name == host_name][0]
-        _run_standin(ctx, host, _plans(host_name, ctx.tier))
+        try:
+            host = [h for h in _hosts() if h.name == host_name][0]
+            _run_standin(ctx, host, _plans(host_name, ctx.tier))
+        finally:
+            _drop_fixture()
 
     return run
 
 
 for _h in ('integer-matcher', 'line-matcher', 'string-matcher', 'file-matcher', 'files-matcher', 'string-transformer'):
     M.bounded('recursive-descent: ' + _h)(_standin_for(_h))
+
+
+# ============================================================================== (f) components that are SIMPLE expressions
+# "! binds tighter than &&, which binds tighter than ||" includes the primitives that take an expression as
+# argument: such a component has the syntax of a SIMPLE expression (built-in help of these primitives: "Note:
+# X may not contain infix operators (unless inside parentheses)"), so an infix operator after it belongs to
+# the surrounding expression.  The table is written from the documented syntax of the primitives; it is
+# compared (1) with the built-in documentation objects of the real grammars, (2) with the behaviour of the
+# real parsers on sources where the two readings differ, (3) with a syntactic scan of every use of an
+# expression parser in the current tree.
+
+_MATCHER_TYPES = ('integer-matcher', 'line-matcher', 'string-matcher', 'file-matcher', 'files-matcher')
+_DOC_NAME = {'INTEGER-MATCHER': 'integer-matcher', 'LINE-MATCHER': 'line-matcher', 'TEXT-MATCHER': 'string-matcher',
+             'FILE-MATCHER': 'file-matcher', 'FILES-MATCHER': 'files-matcher', 'TEXT-TRANSFORMER': 'string-transformer'}
+
+# every primitive of every host type; for those with expression components:
+# (source with {C} where the component stands, type of the component, what follows the component, documented?)
+#   what follows: 'end' (the component is the last argument), 'expression' (a further expression argument),
+#   'other' (further arguments that are not expressions)
+_END, _EXPRESSION, _OTHER = 'end', 'expression', 'other'
+PRIMITIVES = {
+    'integer-matcher': {n: [] for n in ('==', '!=', '<', '<=', '>', '>=', 'constant')},
+    'line-matcher': {
+        'line-num': [('line-num {C}', 'integer-matcher', _END, True)],
+        # (the help of `contents` of a line matcher does not carry the note; the precedence rule is the same)
+        'contents': [('contents {C}', 'string-matcher', _END, False)],
+        'constant': [],
+    },
+    'string-matcher': {
+        'every': [('every line : {C}', 'line-matcher', _END, True)],
+        'any': [('any line : {C}', 'line-matcher', _END, True)],
+        'num-lines': [('num-lines {C}', 'integer-matcher', _END, True)],
+        '-transformed-by': [('-transformed-by {C} constant true', 'string-transformer', _EXPRESSION, True),
+                            ('-transformed-by identity {C}', 'string-matcher', _END, True)],
+        # `-transformed-by TEXT-TRANSFORMER` of a TEXT-SOURCE / of a PROGRAM (help of these syntax elements:
+        # "TEXT-TRANSFORMER may not contain infix operators (unless inside parentheses)")
+        'equals': [('equals -contents-of f.txt -transformed-by {C}', 'string-transformer', _END, False)],
+        '==': [('== -contents-of f.txt -transformed-by {C}', 'string-transformer', _END, False)],
+        'run': [('run -python -c pass\n-transformed-by {C}', 'string-transformer', _END, False)],
+        'is-empty': [], 'matches': [], '~': [], 'constant': [],
+    },
+    'file-matcher': {
+        'contents': [('contents {C}', 'string-matcher', _END, True)],
+        'dir-contents': [('dir-contents {C}', 'files-matcher', _END, True),
+                         ('dir-contents -recursive {C}', 'files-matcher', _END, True)],
+        'run': [('run -python -c pass\n-transformed-by {C}', 'string-transformer', _END, False)],
+        'type': [], 'path': [], 'name': [], 'stem': [], 'suffixes': [], 'suffix': [], 'constant': [],
+    },
+    'files-matcher': {
+        'every': [('every file : {C}', 'file-matcher', _END, True)],
+        'any': [('any file : {C}', 'file-matcher', _END, True)],
+        'num-files': [('num-files {C}', 'integer-matcher', _END, True)],
+        '-selection': [('-selection {C} constant true', 'file-matcher', _EXPRESSION, True),
+                       ('-selection constant true {C}', 'files-matcher', _END, True)],
+        '-with-pruned': [('-with-pruned {C} constant true', 'file-matcher', _EXPRESSION, True),
+                         ('-with-pruned constant true {C}', 'files-matcher', _END, True)],
+        'is-empty': [], 'matches': [], 'constant': [],
+    },
+    'string-transformer': {
+        # (the help of `filter` does not carry the note either)
+        'filter': [('filter {C}', 'line-matcher', _END, False)],
+        'replace': [('replace -at {C} a b', 'line-matcher', _OTHER, True)],
+        'run': [('run -python -c pass\n-transformed-by {C}', 'string-transformer', _END, False)],
+        'grep': [], 'char-case': [], 'strip': [], 'replace-test-case-dirs': [], 'identity': [],
+    },
+}
+
+# every use of an expression parser of a type in the source tree (file relative to exactly_lib, expression):
+# the components of primitives use `.simple`
+SIMPLE_PARSER_SITES = sorted([
+    ('impls/types/file_matcher/parse_file_matcher.py', 'parse_string_matcher.parsers().simple'),
+    ('impls/types/file_matcher/parse_file_matcher.py', 'parse_files_matcher.parsers().simple'),
+    ('impls/types/files_matcher/impl/num_files.py', 'parse_integer_matcher.parsers(False).simple'),
+    ('impls/types/files_matcher/parse_files_matcher.py', 'parse_file_matcher.parsers().simple'),
+    ('impls/types/files_matcher/parse_files_matcher.py', 'parse_file_matcher.parsers().simple'),
+    ('impls/types/files_matcher/parse_files_matcher.py', 'parsers().simple'),
+    ('impls/types/line_matcher/impl/contents/parse.py', 'parse_string_matcher.parsers(False).simple'),
+    ('impls/types/line_matcher/impl/line_number.py', 'parse_integer_matcher.parsers().simple'),
+    ('impls/types/string_matcher/parse/num_lines.py', 'parse_integer_matcher.parsers().simple'),
+    ('impls/types/string_matcher/parse_string_matcher.py', 'parse_line_matcher.parsers().simple'),
+    ('impls/types/string_matcher/parse_string_matcher.py', 'parse_string_transformer.parsers().simple'),
+    ('impls/types/string_matcher/parse_string_matcher.py', 'parsers().simple'),
+    ('impls/types/string_transformer/impl/filter/parse.py', 'parse_line_matcher.parsers(False).simple'),
+    ('impls/types/string_transformer/impl/replace/setup.py',
+     'parse_line_matcher.parsers(must_be_on_current_line=False).simple'),
+    # `-transformed-by TEXT-TRANSFORMER` of a text source / a program
+    ('impls/types/string_transformer/parse_transformation_option.py', 'parse_string_transformer.parsers().simple'),
+])
+# ... `.full` only: where the expression is the last argument of an instruction / of a `def`; for the two
+# grammars without operators (files-condition, files-source); for the file matcher of an entry of a
+# files-condition (one entry per line); and in three functions that nothing refers to (string_matcher/parse/
+# line_matches.py, obligation below)
+FULL_PARSER_SITES_IN_TYPES = sorted([
+    ('impls/types/files_condition/parse.py', 'parse_file_matcher.parsers().full'),
+    ('impls/types/files_matcher/parse_files_matcher.py', 'parse_fc.parsers().full'),
+    ('impls/types/files_source/parse.py', 'parsers(False).full'),
+    ('impls/types/string_matcher/parse/line_matches.py', 'parse_line_matcher.parsers().full'),
+])
+
+
+_EXPRESSION_PARSER_MODULE = 'exactly_lib.impls.types.expression.parser'
+_ALLOWED_FROM_EXPRESSION_PARSER = ('parsers', 'parsers_for_must_be_on_current_line', 'GrammarParsers')
+
+
+def _names_module(import_from, dotted_tail):
+    """absolute or relative `from ... import`: the module named ends with the given dotted tail"""
+    m = import_from.module or ''
+    return m == dotted_tail or m.endswith('.' + dotted_tail)
+
+
+def _scan_parser_uses():
+    """(simple sites, full sites inside impls/types, full sites elsewhere, other ways to a parser) in the current tree"""
+    import ast
+    import os
+    import exactly_lib
+    root = os.path.dirname(exactly_lib.__file__)
+    simple, full_types, full_other, suspicious, line_matches_refs = [], [], [], [], []
+    for dp, dns, fns in os.walk(root):
+        for fn in fns:
+            if not fn.endswith('.py'):
+                continue
+            path = os.path.join(dp, fn)
+            rel = os.path.relpath(path, root).replace(os.sep, '/')
+            try:
+                tree = ast.parse(open(path, encoding='utf-8').read())
+            except SyntaxError:
+                continue
+            in_parsers_fn = set()
+            aliases = set()       # local names of the module impls.types.expression.parser
+            for f in ast.walk(tree):
+                if isinstance(f, ast.FunctionDef) and f.name == 'parsers':
+                    in_parsers_fn |= {id(n) for n in ast.walk(f)}
+                if isinstance(f, ast.ImportFrom) and _names_module(f, 'expression'):
+                    aliases |= {a.asname or a.name for a in f.names if a.name == 'parser'}
+                if isinstance(f, ast.Import):
+                    aliases |= {a.asname for a in f.names if a.name == _EXPRESSION_PARSER_MODULE and a.asname}
+            for n in ast.walk(tree):
+                if isinstance(n, ast.Attribute) and n.attr in ('simple', 'full') and isinstance(n.value, ast.Call) \
+                        and ast.unparse(n.value.func).split('.')[-1] == 'parsers':
+                    site = (rel, ast.unparse(n))
+                    if n.attr == 'simple':
+                        simple.append(site)
+                    elif rel.startswith('impls/types/'):
+                        full_types.append(site)
+                    else:
+                        full_other.append(site)
+                elif rel != 'impls/types/expression/parser.py' and (
+                        (isinstance(n, ast.Attribute) and n.attr in ('_full', '_simple'))
+                        or (isinstance(n, ast.Attribute) and isinstance(n.value, ast.Name) and n.value.id in aliases
+                            and n.attr not in _ALLOWED_FROM_EXPRESSION_PARSER)
+                        or (isinstance(n, ast.ImportFrom) and _names_module(n, 'expression.parser')
+                            and any(a.name not in _ALLOWED_FROM_EXPRESSION_PARSER for a in n.names))
+                        or (isinstance(n, ast.Subscript) and isinstance(n.value, ast.Name)
+                            and n.value.id == '_PARSERS_FOR_MUST_BE_ON_CURRENT_LINE' and id(n) not in in_parsers_fn)):
+                    suspicious.append((rel, n.lineno, ast.unparse(n)[:80]))
+                if isinstance(n, ast.Attribute) and n.attr in ('parse', 'parse__all', 'parse__exists') \
+                        and ast.unparse(n.value).split('.')[-1] == 'line_matches':
+                    line_matches_refs.append((rel, n.lineno))
+                if isinstance(n, ast.ImportFrom) and (n.module or '').endswith('string_matcher.parse.line_matches'):
+                    line_matches_refs.append((rel, n.lineno))
+    return sorted(simple), sorted(full_types), sorted(full_other), suspicious, line_matches_refs
+
+
+def _documented_simple_components(grammar):
+    """{(primitive name, component type)} for which the built-in help of the primitive says that the component
+    may not contain infix operators (unless inside parentheses)"""
+    import re
+
+    def texts_of(o, depth, out):
+        if depth > 12:
+            return out
+        if isinstance(o, str):
+            out.append(o)
+        elif isinstance(o, (list, tuple)):
+            for x in o:
+                texts_of(x, depth + 1, out)
+        elif getattr(o, '__dict__', None):
+            for v in vars(o).values():
+                texts_of(v, depth + 1, out)
+        return out
+
+    found = set()
+    for nav in grammar.primitives__seq:
+        syn = nav.value.syntax
+        for t in texts_of([list(syn.description_rest), list(syn.syntax_elements)], 0, []):
+            m = re.search(r'(\S+(?:(?:, | and )\S+)*) may not contain infix operators \(unless inside parentheses\)', t)
+            if m:
+                for doc_name in re.split(r', | and ', m.group(1)):
+                    found.add((nav.name, _DOC_NAME.get(doc_name, doc_name)))
+    return found
+
+
+@M.check('simple-components')
+def _simple_components(ctx):
+    try:
+        _simple_components_(ctx)
+    finally:
+        _drop_fixture()
+
+
+def _simple_components_(ctx):
+    hosts = {h.name: h for h in _hosts()}
+    matchers, transformers = _grammar_modules()
+    modules = dict(matchers, **transformers)
+
+    def ob(name, ok, **detail):
+        _finite(ctx, 'simple-components', name, ok, detail)
+
+    def read(host, source):
+        """-> ('error',) | (top-level structure, remaining tokens)"""
+        got = hosts[host].parse(source, False, True)
+        if got[0] != 'ok':
+            return ('error',)
+        return (_flat_skeleton(hosts[host].skeleton(got[1])), got[2])
+
+    for host, table in PRIMITIVES.items():
+        g = modules[host].GRAMMAR
+        ob('%s: the primitives are %s' % (host, ', '.join(sorted(table))),
+           lambda: sorted(nav.name for nav in g.primitives__seq) == sorted(table),
+           actual=[nav.name for nav in g.primitives__seq])
+        ob('%s: the help says "may not contain infix operators" of exactly the documented simple components' % host,
+           lambda: _documented_simple_components(g) == {(p, c[1]) for p, cs in table.items() for c in cs if c[3]},
+           help=sorted(_documented_simple_components(g)))
+        host_ops = hosts[host].operators
+        for prim, components in table.items():
+            for template, ctype, follows, _ in components:
+                leaf = 'identity' if ctype == 'string-transformer' else 'constant true'
+                comp_ops = [SEQUENCE] if ctype == 'string-transformer' else [OR, AND]
+                what = '%s: %s: the %s component of `%s` is a simple expression' % (host, prim, ctype, template)
+                ob(what + ': as written', lambda: read(host, template.format(C=leaf)) == ('L', []))
+                for op in comp_ops:
+                    in_parens = template.format(C='( %s %s %s )' % (leaf, op, leaf))
+                    bare = template.format(C='%s %s %s' % (leaf, op, leaf))
+                    ob(what + ': %s inside parentheses belongs to the component' % op,
+                       lambda: read(host, in_parens) == ('L', []), source=in_parens)
+                    if follows == _END and op in host_ops:
+                        ob(what + ': a following %s belongs to the %s expression' % (op, host),
+                           lambda: read(host, bare) == ((op, ['L', 'L']), []), source=bare, got=read(host, bare))
+                    elif follows == _END:
+                        # an operator the host type does not have: the host expression ends in front of it
+                        ob(what + ': a following %s is not consumed' % op,
+                           lambda: read(host, bare) == ('L', [op] + leaf.split()), source=bare, got=read(host, bare))
+                    else:
+                        # what must follow the component is not an operator: a syntax error, not another reading
+                        ob(what + ': a following %s is a syntax error' % op,
+                           lambda: read(host, bare) == ('error',), source=bare, got=read(host, bare))
+                if ctype in _MATCHER_TYPES and follows == _END and AND in host_ops:
+                    negated = template.format(C='! constant true') + ' && constant false'
+                    ob(what + ': ! binds to the component, a following && does not',
+                       lambda: read(host, negated) == ((AND, ['L', 'L']), []), source=negated)
+
+    simple, full_types, full_other, suspicious, line_matches_refs = _scan_parser_uses()
+    ob('scan: the simple parsers are used at exactly the documented component positions',
+       simple == SIMPLE_PARSER_SITES, unexpected=[x for x in simple if x not in SIMPLE_PARSER_SITES],
+       missing=[x for x in SIMPLE_PARSER_SITES if x not in simple])
+    ob('scan: inside impls/types the full parsers are used only by the grammars without operators, for the entries '
+       'of a files-condition and in unreferenced code',
+       full_types == FULL_PARSER_SITES_IN_TYPES, unexpected=[x for x in full_types if x not in FULL_PARSER_SITES_IN_TYPES],
+       missing=[x for x in FULL_PARSER_SITES_IN_TYPES if x not in full_types])
+    ob('scan: elsewhere the full parsers are used only by instructions (impls/instructions/)',
+       all(rel.startswith('impls/instructions/') for rel, _ in full_other), sites=full_other)
+    ob('scan: no other way to an expression parser than parsers(...).simple / .full',
+       suspicious == [], found=suspicious)
+    ob('scan: string_matcher/parse/line_matches.py parse / parse__all / parse__exists (full line matcher) are not '
+       'referenced', line_matches_refs == [], found=line_matches_refs)
